@@ -15,8 +15,13 @@ VERIF = os.path.dirname(os.path.dirname(os.path.abspath(__file__)))
 REPO = os.environ.get("VERIF_REPO", "/repo")
 TARGET = os.environ.get("VERIF_TARGET", os.path.join(VERIF, "target"))
 BUILD = os.path.join(VERIF, "build")
-EVIDENCE = os.environ.get("VERIF_EVIDENCE_DIR", os.path.join(VERIF, "evidence"))
-REPLAYS = os.environ.get("VERIF_REPLAYS_DIR", os.path.join(VERIF, "replays"))
+# /verif/evidence and /verif/replays describe /repo only: a run against a scratch worktree writes
+# elsewhere unless told otherwise
+_SCRATCH_OUT = None if REPO == "/repo" else "/tmp/verif-scratch-out-%d" % os.getuid()
+EVIDENCE = os.environ.get("VERIF_EVIDENCE_DIR") or (
+    os.path.join(_SCRATCH_OUT, "evidence") if _SCRATCH_OUT else os.path.join(VERIF, "evidence"))
+REPLAYS = os.environ.get("VERIF_REPLAYS_DIR") or (
+    os.path.join(_SCRATCH_OUT, "replays") if _SCRATCH_OUT else os.path.join(VERIF, "replays"))
 KNOWN_FINDINGS = os.path.join(VERIF, "known_findings.json")
 TOPOSIM = os.path.join(TARGET, "toposim", "release", "toposim")
 CAPY = os.path.join(TARGET, "capy", "release", "capy")
